@@ -42,7 +42,8 @@ def gen_case(rng, cid, max_len=3, max_depth=2, allow=None, short_prob=0.0,
             continue
         w = sg.min_samples(top)
         order, mode = sg.gen_layout(rng, w, short_prob=short_prob,
-                                    max_eps=max_eps if ep else 1)
+                                    max_eps=max_eps if ep else 1,
+                                    many=True if (ep and max_eps >= 3 and cid % 40 == 7) else None)
         if not ep:
             order = [0] * len(order)
         X = sg.gen_data(rng, order, ns, nu, ep, tagged=tagged)
